@@ -844,6 +844,72 @@ func runPath(line string, l []string, p, e string) core.Outcome {
 			}
 		}
 	}
+	// ---- '%' patterns: the spelling class of the request built around its canonical spelling
+	// (escapes at the very end / start / adjacent); encoding an unreserved byte never matters
+	if terms, ok := pctSpellingDomain(l); pct && ok && strings.HasPrefix(e, "/") {
+		o.Tags = append(o.Tags, "path:pct-spelling-class")
+		var got []string
+		sp := boundarySpellings(e, terms)
+		for _, raw := range sp {
+			vu, err := url.ParseRequestURI(raw)
+			if err != nil || vu.RawQuery != "" || vu.ForceQuery || vu.Path != p {
+				got = append(got, "")
+				continue
+			}
+			got = append(got, implPathURL(l, vu))
+		}
+		ref, refRaw := base, e
+		if got[0] != "" {
+			ref, refRaw = got[0], sp[0]
+		}
+		encTerm := false
+		for _, x := range tokens(e) {
+			if x.esc && terms != "" && strings.IndexByte(terms, unhex2(x.s[1:])|0x20) >= 0 {
+				encTerm = true
+			}
+		}
+		if ref != base && encTerm {
+			fail("path-spelling:pct-wildcard-terminator", fmt.Sprintf("patterns %q: canonical spelling %q -> %s but the equivalent spelling %q (the byte ending a wildcard span percent-encoded) -> %s", l, sp[0], ref, e, base))
+		} else if ref != base && hasEncodedDotSeg(e) {
+			fail("path-spelling:pct-encoded-dot-segment", fmt.Sprintf("patterns %q: canonical spelling %q -> %s but the equivalent spelling %q (a dot segment spelt with %%2e) -> %s", l, sp[0], ref, e, base))
+		} else if ref != base {
+			fail("path-spelling:pct-literal:"+mode, fmt.Sprintf("patterns %q: canonical spelling %q -> %s but the equivalent spelling %q -> %s", l, sp[0], ref, e, base))
+		}
+		for i, g := range got {
+			if g != "" && g != ref && hasEncodedDotSeg(sp[i]) {
+				fail("path-spelling:pct-encoded-dot-segment", fmt.Sprintf("patterns %q: %q -> %s but the equivalent spelling %q (a dot segment spelt with %%2e) -> %s", l, refRaw, ref, sp[i], g))
+				// reported once; keep looking for a failure of another kind
+				for j := i + 1; j < len(got); j++ {
+					if hasEncodedDotSeg(sp[j]) {
+						got[j] = ""
+					}
+				}
+				continue
+			}
+			if g != "" && g != ref {
+				fail("path-spelling:pct-literal:"+mode, fmt.Sprintf("patterns %q: %q -> %s but the equivalent spelling %q (unreserved bytes percent-encoded) -> %s", l, refRaw, ref, sp[i], g))
+				break
+			}
+		}
+		if ref == "m:1" {
+			o.Tags = append(o.Tags, "path:pct-spelling-class-matching")
+		}
+		// the byte that ends a wildcard span, percent-encoded
+		if terms != "" {
+			t := tokens(canonU(e))
+			for i := len(t) - 1; i >= 0; i-- {
+				if !t[i].esc && strings.IndexByte(terms, t[i].s[0]|0x20) >= 0 && isUnreserved(t[i].s[0]) {
+					raw := encodeAt(t, true, i)
+					if vu, err := url.ParseRequestURI(raw); err == nil && vu.Path == p {
+						if g := implPathURL(l, vu); g != ref {
+							fail("path-spelling:pct-wildcard-terminator", fmt.Sprintf("patterns %q: %q -> %s but the equivalent spelling %q (the byte ending a wildcard span percent-encoded) -> %s", l, refRaw, ref, raw, g))
+						}
+					}
+					break
+				}
+			}
+		}
+	}
 	// ---- order of the list
 	if len(l) > 1 {
 		for k := 0; k < 2; k++ {
@@ -870,6 +936,35 @@ func runPath(line string, l []string, p, e string) core.Outcome {
 	if dom && !pct && !dbl && p == asciiLower(p) && p == stdClean(p) && strings.HasPrefix(p, "/") {
 		if want, ok := specPath(l, p); ok && mb(want) != base {
 			fail("path-rule-mismatch", fmt.Sprintf("canonical path %q, patterns %q: got %s, documented rules give %s", p, l, base, mb(want)))
+		}
+	}
+	// ---- documented rules on a canonical request, lists with star-free '%' patterns: exact match
+	if dom && pct && !dbl && p == asciiLower(p) && p == stdClean(p) && strings.HasPrefix(p, "/") && e == canonU(e) {
+		want, covered, longer := false, true, false
+		for _, raw := range l {
+			if strings.Contains(raw, "%") {
+				if !simplePct(asciiLower(raw), false) {
+					covered = false
+					break
+				}
+				want = want || specEsc(raw, e, false)
+				longer = longer || specEsc(raw, e, true)
+			} else if w, ok := specPath([]string{raw}, p); ok {
+				want = want || w
+			} else {
+				covered = false
+				break
+			}
+		}
+		if covered {
+			o.Tags = append(o.Tags, "path:pct-rule-checked")
+			if mb(want) != base {
+				class := "path-rule-mismatch:pct"
+				if base == "m:1" && longer {
+					class = "path-rule-mismatch:escaped-pattern-matches-longer-path"
+				}
+				fail(class, fmt.Sprintf("canonical request %q, patterns %q: got %s, documented rules (exact match) give %s", e, l, base, mb(want)))
+			}
 		}
 	}
 	return o
@@ -954,6 +1049,14 @@ func runPathPair(kind string, l []string, p1, e1, p2, e2 string) core.Outcome {
 	pct, dbl := hasPct(l), hasDoubleSlash(l)
 	what := fmt.Sprintf("patterns %q: %q (raw %q) -> %s but %q (raw %q) -> %s", l, p1, e1, r1, p2, e2, r2)
 	switch {
+	case kind == "pct" && pct && canonU(e1) == canonU(e2) && func() bool { t, ok := pctSpellingDomain(l); return ok && t == "" }():
+		// the two spellings differ only by the percent-encoding of unreserved bytes and no
+		// pattern escape stands for an unreserved byte
+		if hasEncodedDotSeg(e1) || hasEncodedDotSeg(e2) {
+			o.Failures = append(o.Failures, core.Failure{Class: "path-pair:pct-encoded-dot-segment", What: what})
+		} else {
+			o.Failures = append(o.Failures, core.Failure{Class: "path-pair:pct-literal", What: what})
+		}
 	case kind == "slash" && dbl, kind == "pct" && pct:
 		// documented intent of a pattern with "//" resp. "%": not a failure
 		o.Tags = append(o.Tags, "pathpair:documented-mode")
